@@ -13,6 +13,7 @@
 -/
 import Msmart.Lemmas.SessionRetry
 import Msmart.Lemmas.SessionRecover
+import Msmart.Lemmas.SessionSettle
 import Msmart.Props.C01Layers
 import Msmart.Props.C06
 import Msmart.Lemmas.SessionContain
@@ -333,6 +334,100 @@ theorem cancelled_read_drops_connection (p : Params) (rx : Reactions) (frame : B
   unfold sendLoop
   rw [hw]; simp only
   rw [ha]
+
+/-! ### where the faults of the alphabet lead: settled states -/
+
+/-- operations of a history against a gentle peer: exchanges with any retry budget, explicit
+    authentications with a token that fits the size field, clock jumps, lifetime changes -/
+def PlainOp : Op → Prop
+  | .send _ => True
+  | .sendN _ _ => True
+  | .authenticate t _ => t.length < 65536
+  | .advance _ => True
+  | .setMaxLifetime _ => True
+  | _ => False
+
+def TokOk (s : S) : Prop := ∀ t, s.l.token = some t → t.length < 65536
+
+theorem step_settled (p : Params) (rx : Reactions) (hg : Gentle p rx) (s : S) (op : Op) (hs : Settled s) (ht : TokOk s)
+    (hop : PlainOp op) : Settled (step p rx s op).2 ∧ TokOk (step p rx s op).2 := by
+  cases op with
+  | send f =>
+    simp only [step]
+    cases hl : lanSend p rx s f Generated.lanRetries with
+    | mk r s1 =>
+      have h1 := lanSend_settled hg hs ht hl
+      have h2 : TokOk s1 := by
+        have := creds_lanSend hl; simp only [creds, Prod.mk.injEq] at this
+        intro t htk; rw [this.1] at htk; exact ht t htk
+      cases r <;> exact ⟨h1, h2⟩
+  | sendN f n =>
+    simp only [step]
+    cases hl : lanSend p rx s f n with
+    | mk r s1 =>
+      have h1 := lanSend_settled hg hs ht hl
+      have h2 : TokOk s1 := by
+        have := creds_lanSend hl; simp only [creds, Prod.mk.injEq] at this
+        intro t htk; rw [this.1] at htk; exact ht t htk
+      cases r <;> exact ⟨h1, h2⟩
+  | authenticate t k =>
+    simp only [step]
+    cases hl : lanAuthenticate p rx s (some t) (some k) Generated.lanRetries with
+    | mk r s1 =>
+      have hpt : ∀ x, pickCred (some t) (some k) s.l.token = some x → x.length < 65536 := by
+        intro x hx; simp [pickCred] at hx; subst hx; exact hop
+      have h1 := lanAuthenticate_settled hg hs hpt hl
+      have h2 : TokOk s1 := by
+        rcases creds_lanAuthenticate hl with ⟨_, hc⟩ | ⟨_, hc⟩
+        · simp only [creds, Prod.mk.injEq] at hc
+          intro x hx; rw [hc.1] at hx; exact hpt x hx
+        · simp only [creds, Prod.mk.injEq] at hc
+          intro x hx; rw [hc.1] at hx; exact ht x hx
+      cases r <;> exact ⟨h1, h2⟩
+  | advance ms =>
+    refine ⟨settled_pump _ hs, ?_⟩
+    have : creds (pump s (s.w.now + ms)) = creds s := creds_pump _ _
+    simp only [creds, Prod.mk.injEq] at this
+    intro t htk
+    exact ht t (by rw [← this.1]; exact htk)
+  | setMaxLifetime m => exact ⟨⟨hs.quiet, hs.unarmed, hs.ver, hs.conn⟩, ht⟩
+  | sendCancelled f ms => exact hop.elim
+  | authCancelled t k ms => exact hop.elim
+
+/-- **C08 (faults leave nothing behind).** Against a gentle peer — every reaction to a write is nothing
+    (drop), or one prompt event: a close, or a segment holding exactly one packet of ANY content (a
+    response, an error packet, garbage) — and for any outcomes of the connection attempts (refused,
+    hanging), every history of exchanges, authentications and clock jumps from a settled V3 session ends
+    in a settled session: nothing pending on the network, nothing queued or buffered on an open
+    connection.  (Induction over histories of any length.) -/
+theorem faults_leave_settled (p : Params) (rx : Reactions) (hg : Gentle p rx) (ops : List Op) :
+    ∀ s, Settled s → TokOk s → (∀ op ∈ ops, PlainOp op) →
+      Settled (run p rx s ops).2 ∧ TokOk (run p rx s ops).2 := by
+  induction ops with
+  | nil => intro s hs ht _; exact ⟨hs, ht⟩
+  | cons op t ih =>
+    intro s hs ht hops
+    obtain ⟨h1, h2⟩ := step_settled p rx hg s op hs ht (hops op (List.mem_cons_self ..))
+    have := ih (step p rx s op).2 h1 h2 (fun o ho => hops o (List.mem_cons_of_mem _ ho))
+    simpa [run] using this
+
+/-- **C08 (a settled session is recoverable).** A settled V3 session is in exactly one of three
+    situations, and each has its recovery theorem: the connection is dead (`recovery_v3`,
+    `recovery_v3_honest_device`); it is alive but not authenticated (`recovery_v3_same_connection`); it is
+    alive, authenticated and idle (`exchange_on_idle_session`). -/
+theorem settled_is_recoverable {s : S} (hs : Settled s) :
+    connAlive s = false ∨
+    (∃ c, s.l.conn = some c ∧ c.closing = false ∧ c.core.v3 = true ∧ c.queue = [] ∧ c.buffer = [] ∧
+        connAlive s = true ∧ authenticated s = false) ∨
+    (∃ c, Ready s c ∧ c.buffer = [] ∧ connAlive s = true ∧ authenticated s = true) :=
+  settled_cases hs
+
+theorem exchange_on_idle_session {p : Params} {rx : Reactions} {s : S} {c : Conn} (frame : Bytes) (n : Nat)
+    (hr : Ready s c) (hal : connAlive s = true) (hauth : isV3 s = true → authenticated s = true)
+    (d : Nat) (b pkt f : Bytes) (hrx : rx c.core.cid c.core.nWrites = [(d, .data b)]) (hd : d ≤ p.readTimeout)
+    (hseg : segQueue c.core.v3 c.buffer b = [pkt]) (hdec : decodeWith c.core.v3 c.core.localKey pkt = .ok f) :
+    ∃ s', lanSend p rx s frame (n + 1) = (.ok [f], s') ∧ nData (evsOf s') = nData (evsOf s) + 1 :=
+  lanSend_ready_answered frame n hr hal hauth d b pkt f hrx hd hseg hdec
 
 /-! non-vacuity: a ready state exists and a one-packet V2 answer is a `segQueue` of one item -/
 example : Ready { l := { conn := some { core := { cid := 1, v3 := false } } } } { core := { cid := 1, v3 := false } } :=
